@@ -1,7 +1,7 @@
 (* Model of rust-miniscript `policy::concrete::Policy` as far as C18 needs it:
    `Liftable for Concrete` (src/policy/mod.rs), `check_timelocks` / `timelock_info`
    (src/policy/concrete.rs) and `TimelockInfo::combine_threshold`
-   (src/miniscript/types/extra_props.rs).  Mirrors the code as written (after the repairs 780a529d and b588aa3a):
+   (src/miniscript/types/extra_props.rs).  Mirrors the code as written (after the repairs 780a529d, b588aa3a and 243891a5):
    `And` lifts n-of-n, `Or` 1-of-n, the empty ones to Trivial / Unsatisfiable;
    `timelock_info` combines an `And` with k = subs.len() and zeroes unsatisfiable nodes.  The relative probabilities of `Or` branches are dropped (no modelled
    function reads them).  Definitions only. *)
@@ -75,53 +75,33 @@ Fixpoint timelock_info (p : cpol) : tli :=
 (* Policy::check_timelocks: true = Ok(()), false = Err(HeightTimelockCombination) *)
 Definition check_timelocks (p : cpol) : bool := negb (comb (timelock_info p)).
 
-(* Liftable for Concrete.  check_timelocks is re-run at every level of the recursion; And lifts
-   to Threshold::new(n, subs) (Trivial when that fails, i.e. n = 0), Or to Threshold::new(1, subs)
-   (Unsatisfiable when that fails); no panic site is left. *)
+(* Liftable for Concrete (after /repo 243891a5): check_timelocks once, for the whole policy, then
+   lift_unchecked.  lift_unchecked returns a Result in the code but no arm produces an Err
+   (And = Threshold::new(n, subs) or Trivial when that fails, i.e. n = 0; Or = Threshold::new(1, subs)
+   or Unsatisfiable when that fails; Thresh keeps its k), so it is modelled as a total function;
+   every level normalizes. *)
 Inductive lres := LOk (s : spol) | LErrTimelock.
 
-(* subs.iter().map(lift).collect::<Result<Vec<_>, _>>(): first failure wins, left to right *)
-Definition lift_list (f : cpol -> lres) : list cpol -> lres + list spol :=
-  fix go (l : list cpol) : lres + list spol :=
-    match l with
-    | [] => inr []
-    | c :: r =>
-        match f c with
-        | LOk s => match go r with inr ss => inr (s :: ss) | inl e => inl e end
-        | e => inl e
-        end
+Fixpoint lift_unchecked (p : cpol) : spol :=
+  normalized
+    match p with
+    | CUnsat => SUnsat
+    | CTriv => STriv
+    | CKey k => SKey k
+    | CAfter t => SAfter t
+    | COlder t => SOlder t
+    | CSha256 h => SSha256 h
+    | CHash256 h => SHash256 h
+    | CRipemd160 h => SRipemd160 h
+    | CHash160 h => SHash160 h
+    | CAnd subs =>
+        let ss := map lift_unchecked subs in
+        if (1 <=? length ss) then SThresh (length ss) ss else STriv
+    | COr subs =>
+        let ss := map lift_unchecked subs in
+        if (1 <=? length ss) then SThresh 1 ss else SUnsat
+    | CThresh k subs => SThresh k (map lift_unchecked subs)
     end.
 
-Fixpoint lift (p : cpol) : lres :=
-  if comb (timelock_info p) then LErrTimelock
-  else
-    match p with
-    | CUnsat => LOk SUnsat
-    | CTriv => LOk STriv
-    | CKey k => LOk (SKey k)
-    | CAfter t => LOk (SAfter t)
-    | COlder t => LOk (SOlder t)
-    | CSha256 h => LOk (SSha256 h)
-    | CHash256 h => LOk (SHash256 h)
-    | CRipemd160 h => LOk (SRipemd160 h)
-    | CHash160 h => LOk (SHash160 h)
-    | CAnd subs =>
-        match lift_list lift subs with
-        | inl e => e
-        | inr ss =>
-            (* match Threshold::new(n, subs) { Ok(t) => Thresh(t), Err(_) => Trivial } *)
-            if (1 <=? length ss) then LOk (normalized (SThresh (length ss) ss)) else LOk (normalized STriv)
-        end
-    | COr subs =>
-        match lift_list lift subs with
-        | inl e => e
-        | inr ss =>
-            (* match Threshold::new(1, subs) { Ok(t) => Thresh(t), Err(_) => Unsatisfiable } *)
-            if (1 <=? length ss) then LOk (normalized (SThresh 1 ss)) else LOk (normalized SUnsat)
-        end
-    | CThresh k subs =>
-        match lift_list lift subs with
-        | inl e => e
-        | inr ss => LOk (normalized (SThresh k ss))
-        end
-    end.
+Definition lift (p : cpol) : lres :=
+  if comb (timelock_info p) then LErrTimelock else LOk (lift_unchecked p).
